@@ -355,6 +355,58 @@ func (e *Engine) intrinsic(name string, fn *ssa.Function) (handler, bool) {
 		return func(c *frame, f *ssa.Function, a []value) value {
 			return e.ctx.Wrap(IntType{64, true}, (*a[0].(*value)).(*Term))
 		}, true
+	case "internal/bytealg.MakeNoZero":
+		return func(c *frame, f *ssa.Function, a []value) value {
+			n := a[0].(*Term)
+			if n.K && n.C.IsInt64() && n.C.Int64() <= 4096 {
+				s := make([]value, n.C.Int64())
+				for i := range s {
+					s[i] = IntC(0)
+				}
+				return s
+			}
+			return sliceS{e.constArr(IntType{8, false}, IntC(0)), IntC(0), n, n}
+		}, true
+	case "internal/bytealg.abigen_runtime_cmpstring", "internal/bytealg.CompareString", "strings.Compare":
+		return func(c *frame, f *ssa.Function, a []value) value {
+			x, ok1 := a[0].(string)
+			y, ok2 := a[1].(string)
+			if !ok1 || !ok2 {
+				unsup("string comparison on symbolic strings")
+			}
+			return IntC(int64(strings.Compare(x, y)))
+		}, true
+	case "internal/bytealg.IndexByteString", "strings.IndexByte":
+		return func(c *frame, f *ssa.Function, a []value) value {
+			x, ok1 := a[0].(string)
+			b, ok2 := termConstInt(a[1])
+			if !ok1 || !ok2 {
+				unsup("IndexByteString on symbolic values")
+			}
+			return IntC(int64(strings.IndexByte(x, byte(b))))
+		}, true
+	case "internal/bytealg.IndexByte", "bytes.IndexByte":
+		return func(c *frame, f *ssa.Function, a []value) value {
+			xs, ok := a[0].([]value)
+			if !ok && a[0] != nil {
+				unsup("IndexByte on symbolic slice")
+			}
+			for i, v := range xs {
+				if e.Branch(EqI(v.(*Term), a[1].(*Term))) {
+					return IntC(int64(i))
+				}
+			}
+			return IntC(-1)
+		}, true
+	case "internal/bytealg.Equal":
+		return func(c *frame, f *ssa.Function, a []value) value {
+			x, ok1 := e.asSliceS(a[0])
+			y, ok2 := e.asSliceS(a[1])
+			if !ok1 || !ok2 {
+				unsup("bytealg.Equal(%T,%T)", a[0], a[1])
+			}
+			return e.seqEq(x.arr, x.off, x.len, y.arr, y.off, y.len)
+		}, true
 	case "bytes.Equal":
 		return func(c *frame, f *ssa.Function, a []value) value {
 			x, ok1 := e.asSliceS(a[0])
